@@ -64,6 +64,8 @@ type C04Odd struct {
 	Runes     []rune
 	Matrix    [][]int
 	Cyc       []interface{} // a slice that contains itself
+	Cyc2      []interface{} // contains itself twice
+	SelfPtr   interface{}   // a *interface{} pointing at itself
 	CycMap    map[string]interface{}
 	SelfEmb   C04SelfEmb
 	*c04Inner // nil embedded pointer
@@ -87,6 +89,7 @@ var c04OddSources = []string{
 	`IfKey[1]`, `IfKey["a"]`, `IfKey[nil]`, `StructKey`, `StructKey[1]`, `NilMap.a`, `NilMap["a"]`, `"a" in NilMap`, `len(NilMap)`, `Uptr + 1`, `U - 1`, `-U`, `Bytes[0]`, `Bytes + Bytes`, `Bytes == "a"`, `len(Bytes)`, `Runes[0] + 1`,
 	`Matrix[0][0]`, `Matrix[0][5]`, `map(Matrix, {len(#)})`, `filter(Matrix, {#[0] > 0})`, `IV`, `c04Inner`, `c04Inner.IV`, `MNoRes()`, `MTwo()`, `MVar()`, `MVar(1, 2, 3)`, `MVar("a")`, `MPtr()`, `MErr()`, `MPanic()`, `MIface()`, `MIface().String()`,
 	`MIface()?.String()`, `MNoRes`, `MVar`, `all(Arr, {# > 0})`, `count(Bytes, {# > 0})`, `Arr == [0, 0, 0]`, `Arr in [Arr]`, `{"a": Ch}`, `[NilFn, Ch, Cx]`, `Ch ?: 1`, `Cx in 1..3`, `U in 1..3`, `Uptr in [1]`,
+	`Cyc2 == Cyc2`, `Cyc2 in [Cyc2]`, `[Cyc2] == [Cyc2]`, `1 in SelfPtr`, `SelfPtr[1:2]`, `SelfPtr == SelfPtr`, `len(SelfPtr)`,
 	`Cyc == Cyc`, `Cyc != Cyc`, `Cyc in [Cyc]`, `[Cyc] == [Cyc]`, `Cyc[0] == Cyc`, `len(Cyc)`, `CycMap == CycMap`, `CycMap.self == CycMap`, `Cyc == Matrix`, `SelfEmb.V`, `SelfEmb.V + 1`, `SelfEmb == nil`,
 }
 
@@ -109,6 +112,11 @@ func c04OddEnv(r *runner.Rng) interface{} {
 	}
 	e.Cyc = []interface{}{1, nil}
 	e.Cyc[1] = e.Cyc
+	e.Cyc2 = []interface{}{nil, nil}
+	e.Cyc2[0], e.Cyc2[1] = e.Cyc2, e.Cyc2
+	var self interface{}
+	self = &self
+	e.SelfPtr = self
 	e.CycMap = map[string]interface{}{"k": 1}
 	e.CycMap["self"] = e.CycMap
 	switch r.Intn(6) {
